@@ -59,6 +59,7 @@ structure LInstSt where
   needySince : Option Nat := none          -- holds fewer than min(target, parts) partitions continuously since then
   procs : Nat := 0                         -- lease calls processed by the store so far
   faultsDoneAt : Nat := 0                  -- instant at which the last injected fault was consumed
+  regrant : List (Nat × Nat) := []         -- (instant, partition): granted again at the instant its previous lease ended, before that release was reported
   satisfied : Bool := false                -- since the last demand change / fault it has held min(needed, existing) partitions at some instant
 
 structure LMon where
@@ -167,9 +168,12 @@ def monitorLease (sc : LScn) (entries : List String) : List (String × String) :
       let name := f.getD 3 ""
       let v := ((f.getD 4 "").toNat?).getD 0
       if name == "allocated" then
+        -- (a partition can be granted again at the very instant its previous lease ends: the expiry goroutine has
+        -- cleared it - otherwise the loop could not have asked for it - but reports the release only afterwards)
         m := m.upd i fun s =>
           let h := if s.held.contains v then s.held else s.held ++ [v]
-          ({ s with held := h, satisfied := s.satisfied || decide (h.length ≥ min s.target s.parts) } : LInstSt).reneedy t
+          ({ s with held := h, regrant := if s.held.contains v then (t, v) :: s.regrant else s.regrant,
+                    satisfied := s.satisfied || decide (h.length ≥ min s.target s.parts) } : LInstSt).reneedy t
       else if name == "released" then
         m := { m with suspect := m.suspect.filter (fun x => !(x.1 == t && x.2 == i)),
                       suspectP := m.suspectP.filter (fun x => !(x.1 == t && x.2.1 == i && x.2.2 == v)) }
@@ -177,7 +181,9 @@ def monitorLease (sc : LScn) (entries : List String) : List (String × String) :
         match (ist i).retAt.lookup v with
         | some r => if t > r + sc.lease then m := m.add "C07" "grant-kept-longer-than-one-lease-duration"
         | none => pure ()
-        m := m.upd i fun s => ({ s with held := s.held.filter (· != v) } : LInstSt).reneedy t
+        m := m.upd i fun s =>
+          if s.regrant.contains (t, v) then { s with regrant := s.regrant.filter (· != (t, v)) }
+          else ({ s with held := s.held.filter (· != v) } : LInstSt).reneedy t
       else if name == "shutdown" then
         if (ist i).shutdowns > 0 then m := m.add "C17" "second-shutdown-event"
         m := m.upd i fun s => { s with shutdowns := s.shutdowns + 1, shutdownAt := some t }
